@@ -13,11 +13,17 @@
      * for ARBITRARY parent maps (mal = TRUE; `new_from` accepts them) the same holds
        EXCEPT that `find(x)` never leaves its first loop exactly when the walk from x enters
        a cycle of length >= 2 that x is not on (rho shape, UfRhoStart): RhoExact.
+   FIXED = TRUE replaces loop 1 by the candidate repair (Brent-style cycle detection: a
+   checkpoint that moves to the current root after 1, 2, 4, ... steps; "parent == checkpoint"
+   is treated like "parent == item": close the end).  With it TLC checks that NO behaviour
+   breaks any rule: find terminates (FixedTerminates) from every parent map, answers equal the
+   equivalence closure, compression preserves the partition.
    The monitor flags that divergence as "find/rho-cycle" -- the model documents the finding
    instead of hiding it; any other rule break fails the model check. *)
 EXTENDS UnionFind, Json
 
-CONSTANTS Items, MODES, MaxOpsWf, MaxOpsMal, EMIT
+CONSTANTS Items, MODES, MaxOpsWf, MaxOpsMal, EMIT, FIXED
+\* FIXED = TRUE: the candidate repair of find (Brent-style cycle detection in loop 1), see below
 \* MODES \subseteq BOOLEAN: FALSE = scripts from the empty map, TRUE = arbitrary (malformed) parent maps
 
 VARIABLES
@@ -30,13 +36,14 @@ VARIABLES
     which,   \* 1: finding the first argument, 2: the second
     item, root, ra,
     steps,   \* iterations of loop 1 in the current find
+    chk, bs, bl,  \* FIXED only: Brent checkpoint, steps since the checkpoint moved, current limit
     fstart,  \* parent map at the start of the current find (for RhoExact)
     hist,    \* returned values so far (-1 = diverged)
     pars,    \* parent map after each call
     init0, script0,
     mal      \* this behaviour starts from an arbitrary (possibly malformed) parent map
 
-ivars == <<pm, pc, script, cur, sub, mch, which, item, root, ra, steps, fstart, hist, pars, init0, script0, mal>>
+ivars == <<pm, pc, script, cur, sub, mch, which, item, root, ra, steps, chk, bs, bl, fstart, hist, pars, init0, script0, mal>>
 vars == <<mvars, ivars>>
 
 ToSeq(f) == LET ks == AscSeq(DOMAIN f) IN [i \in 1..Len(ks) |-> <<ks[i], f[ks[i]]>>]
@@ -62,10 +69,12 @@ Init ==
         /\ MInit(ToSeq(f))
         /\ pm = f /\ pc = "idle" /\ script = sc /\ cur = <<"none", 0, 0>> /\ sub = <<>> /\ mch = 0
         /\ which = 0 /\ item = 0 /\ root = 0 /\ ra = 0 /\ steps = 0 /\ fstart = <<>>
+        /\ chk = 0 /\ bs = 0 /\ bl = 1
         /\ hist = <<>> /\ pars = <<>> /\ init0 = ToSeq(f) /\ script0 = sc
 
 StartFind(x, w) ==
     /\ which' = w /\ item' = x /\ root' = x /\ steps' = 0 /\ fstart' = ToSeq(pm) /\ pc' = "l1"
+    /\ chk' = x /\ bs' = 0 /\ bl' = 1     \* let (mut checkpoint, mut steps, mut limit) = (item, 0, 1)
 
 \* a call has returned ret: tell the monitor, record
 Return(kind, a, b, ret, newpm) ==
@@ -83,7 +92,7 @@ Begin ==
        /\ IF c[1] = "merge"
           THEN IF Len(Others[c[2]]) = 0
                THEN /\ cur' = c /\ Return("merge", c[2], 0, 0, pm)
-                    /\ UNCHANGED <<pm, sub, mch, which, item, root, ra, steps, fstart>>
+                    /\ UNCHANGED <<pm, sub, mch, which, item, root, ra, steps, chk, bs, bl, fstart>>
                ELSE \* merge = union(item, parent) for every entry of other, in order
                     /\ cur' = <<"munion", Head(Others[c[2]])[1], Head(Others[c[2]])[2], c[2]>>
                     /\ sub' = Tail(Others[c[2]]) /\ mch' = 0
@@ -92,29 +101,36 @@ Begin ==
           ELSE IF c[1] = "same" /\ c[2] = c[3]
                THEN \* `a == b ||` short-circuits: no find
                     /\ cur' = c /\ Return("same", c[2], c[3], 1, pm)
-                    /\ UNCHANGED <<pm, sub, mch, which, item, root, ra, steps, fstart>>
+                    /\ UNCHANGED <<pm, sub, mch, which, item, root, ra, steps, chk, bs, bl, fstart>>
                ELSE /\ cur' = c /\ StartFind(c[2], 1)
                     /\ UNCHANGED <<mvars, pm, sub, mch, ra, hist, pars>>
     /\ UNCHANGED <<init0, script0, mal>>
 
 \* one iteration of `while let Some(parent) = self.0.get(&root)`
+LoopBound == IF FIXED THEN 4 * Cardinality(Items) + 4 ELSE Cardinality(Items)
 Loop1 ==
     /\ pc = "l1"
     /\ IF root \notin DOMAIN pm
-       THEN pc' = "l2" /\ UNCHANGED <<pm, root, steps, script, mvars, hist, pars>>
+       THEN pc' = "l2" /\ UNCHANGED <<pm, root, steps, chk, bs, bl, script, mvars, hist, pars>>
        ELSE LET p == pm[root] IN
-            IF p = root THEN pc' = "l2" /\ UNCHANGED <<pm, root, steps, script, mvars, hist, pars>>
-            ELSE IF p = item
+            IF p = root THEN pc' = "l2" /\ UNCHANGED <<pm, root, steps, chk, bs, bl, script, mvars, hist, pars>>
+            ELSE IF p = item \/ (FIXED /\ p = chk)
             THEN \* "Loop detected, close the end": parent.set(root)
-                 pm' = [pm EXCEPT ![root] = root] /\ pc' = "l2" /\ UNCHANGED <<root, steps, script, mvars, hist, pars>>
-            ELSE IF steps > Cardinality(Items)
-            THEN \* root has walked further than there are items: it is going round a cycle
-                 \* that does not contain `item`; neither exit can ever fire
+                 \* (FIXED: also when the parent is the Brent checkpoint)
+                 pm' = [pm EXCEPT ![root] = root] /\ pc' = "l2"
+                 /\ UNCHANGED <<root, steps, chk, bs, bl, script, mvars, hist, pars>>
+            ELSE IF steps > LoopBound
+            THEN \* root has walked further than the bound: it is going round a cycle; no exit fires
                  /\ MDiverge(cur[2], cur[3])
                  /\ hist' = Append(hist, -1) /\ pars' = Append(pars, ToSeq(pm))
                  /\ script' = <<>> /\ pc' = "idle"
-                 /\ UNCHANGED <<pm, root, steps>>
-            ELSE root' = p /\ steps' = steps + 1 /\ UNCHANGED <<pm, pc, script, mvars, hist, pars>>
+                 /\ UNCHANGED <<pm, root, steps, chk, bs, bl>>
+            ELSE /\ root' = p /\ steps' = steps + 1
+                 \* FIXED: steps += 1; if steps == limit { checkpoint = root; steps = 0; limit *= 2; }
+                 /\ IF FIXED /\ bs + 1 = bl
+                    THEN chk' = p /\ bs' = 0 /\ bl' = 2 * bl
+                    ELSE chk' = chk /\ bs' = (IF FIXED THEN bs + 1 ELSE bs) /\ bl' = bl
+                 /\ UNCHANGED <<pm, pc, script, mvars, hist, pars>>
     /\ UNCHANGED <<cur, sub, mch, which, item, ra, fstart, init0, script0, mal>>
 
 \* compression loop `while item != root` and the return of find
@@ -125,7 +141,7 @@ Loop2 ==
             /\ item \in DOMAIN pm          \* unwrap()
             /\ pm' = [pm EXCEPT ![item] = root]
             /\ item' = pm[item]
-            /\ UNCHANGED <<mvars, pc, script, cur, sub, mch, which, root, ra, steps, fstart, hist, pars>>
+            /\ UNCHANGED <<mvars, pc, script, cur, sub, mch, which, root, ra, steps, chk, bs, bl, fstart, hist, pars>>
        ELSE IF which = 1
        THEN /\ ra' = item
             /\ StartFind(cur[3], 2)
@@ -133,25 +149,26 @@ Loop2 ==
        ELSE LET rb == item IN
             CASE cur[1] = "same" ->
                     /\ Return("same", cur[2], cur[3], B(ra = rb), pm)
-                    /\ UNCHANGED <<pm, script, cur, sub, mch, which, item, root, ra, steps, fstart>>
+                    /\ UNCHANGED <<pm, script, cur, sub, mch, which, item, root, ra, steps, chk, bs, bl, fstart>>
               [] cur[1] = "union" ->
                     LET np == IF ra = rb THEN pm ELSE Put(pm, rb, ra) IN
                     /\ pm' = np
                     /\ Return("union", cur[2], cur[3], B(ra # rb), np)
-                    /\ UNCHANGED <<script, cur, sub, mch, which, item, root, ra, steps, fstart>>
+                    /\ UNCHANGED <<script, cur, sub, mch, which, item, root, ra, steps, chk, bs, bl, fstart>>
               [] cur[1] = "munion" ->
                     LET np == IF ra = rb THEN pm ELSE Put(pm, rb, ra)
                         ch == IF ra # rb THEN 1 ELSE mch
                     IN IF sub = <<>>
                        THEN /\ pm' = np /\ mch' = ch
                             /\ Return("merge", cur[4], 0, ch, np)
-                            /\ UNCHANGED <<script, cur, sub, which, item, root, ra, steps, fstart>>
+                            /\ UNCHANGED <<script, cur, sub, which, item, root, ra, steps, chk, bs, bl, fstart>>
                        ELSE \* next entry of other; find runs on the updated map
                             /\ pm' = np /\ mch' = ch
                             /\ cur' = <<"munion", Head(sub)[1], Head(sub)[2], cur[4]>>
                             /\ sub' = Tail(sub)
                             /\ which' = 1 /\ item' = Head(sub)[1] /\ root' = Head(sub)[1]
                             /\ steps' = 0 /\ fstart' = ToSeq(np) /\ pc' = "l1"
+                            /\ chk' = Head(sub)[1] /\ bs' = 0 /\ bl' = 1
                             /\ UNCHANGED <<mvars, script, ra, hist, pars>>
     /\ UNCHANGED <<init0, script0, mal>>
 
@@ -165,12 +182,14 @@ Spec == Init /\ [][Next]_vars
 StartItem == IF which = 1 THEN cur[2] ELSE cur[3]
 
 \* the only rule the model may break is the documented divergence, and only on malformed maps
-ModelOK == bad = "" \/ (mal /\ bad = "find/rho-cycle")
+ModelOK == bad = "" \/ (~FIXED /\ mal /\ bad = "find/rho-cycle")
 \* converse: a find that leaves loop 1 did not start on a rho-start
-RhoExact == pc = "l2" => ~UfRhoStart(fstart, StartItem)
+RhoExact == (~FIXED /\ pc = "l2") => ~UfRhoStart(fstart, StartItem)
 \* unwrap() in loop 2 never fails; loop 1 never runs longer than the bound
 NoUnwrapPanic == (pc = "l2" /\ item # root) => item \in DOMAIN pm
-Bounded == steps <= Cardinality(Items) + 1
+Bounded == steps <= LoopBound + 1
+\* FIXED: the Brent bound -- loop 1 ends within 3 * |Items| + 1 iterations, far below LoopBound
+FixedTerminates == FIXED => steps <= 3 * Cardinality(Items) + 1
 
 \* replay output
 CallJson(c) == IF c[1] = "merge" THEN <<"merge", Others[c[2]]>> ELSE <<c[1], c[2], c[3]>>
